@@ -184,3 +184,12 @@ func nnShared(p *core.Prog) *core.NonNil {
 	nnCache[p] = n
 	return n
 }
+
+func containsStr(xs []string, s string) bool {
+	for _, x := range xs {
+		if x == s {
+			return true
+		}
+	}
+	return false
+}
